@@ -459,7 +459,10 @@ def part_from_matchfile(
     snotes = sort_snotes(mf.snotes)
 
     ts = mf.time_signatures
-    min_time = snotes[0].OnsetInBeats  # sorted by OnsetInBeats
+    # the snotes are sorted by measure, beat and offset; the beat is counted in
+    # the beat type in force at the note, so the first one in that order need
+    # not be the earliest one (time signature changing inside a measure)
+    min_time = min(n.OnsetInBeats for n in snotes)
     max_time = max(n.OffsetInBeats for n in snotes)
     (
         beats_map_from_beats,
